@@ -19,7 +19,7 @@ import (
 func TestMain(m *testing.M) { hx.Main(m) }
 
 type spec struct {
-	Kind   string `json:"kind"` // mix | cap | nogrowth | reset | syncfail | pairbusy | capfine | realrestart | flakypeer
+	Kind   string `json:"kind"` // mix | cap | nogrowth | reset | syncfail | pairbusy | capfine | realrestart | flakypeer | aged
 	Proto  string `json:"proto"`
 	RMs    int    `json:"reconnect_ms"`
 	MaxMs  int    `json:"max_ms"`
@@ -27,7 +27,31 @@ type spec struct {
 	Script string `json:"script,omitempty"` // R refuse, S succeed then drop, J hook rejects in Attaching, X peer drops at once
 	End    string `json:"end,omitempty"`    // close-idle | close-inflight | close-timer | close-connected | sockclose-*
 	Yield  bool   `json:"yield,omitempty"`
-	Tr     string `json:"tr,omitempty"` // flakypeer: transport
+	Tr     string `json:"tr,omitempty"`     // flakypeer: transport
+	AgeMs  int    `json:"age_ms,omitempty"` // aged: how old the dialers are when they have to connect again
+}
+
+// mixProtos: the protocol of the dialling socket in the scripted cases.  Half of the cases keep the
+// two-way patterns; the others take a one-way pattern in either role, cooked or raw: a socket that
+// only ever receives learns of a loss from its receive side alone, one that only sends never reads
+// anything but the end of the connection.
+var mixProtos = []string{"pair", "bus", "pair", "bus", "pair", "bus", "pair1", "xpair", "xbus",
+	"sub", "pull", "push", "pub", "sub", "pull", "xsub", "xpull", "xpush", "xpub"}
+
+func recvOnly(proto string) bool {
+	switch proto {
+	case "sub", "xsub", "pull", "xpull":
+		return true
+	}
+	return false
+}
+
+func sendOnly(proto string) bool {
+	switch proto {
+	case "pub", "xpub", "push", "xpush":
+		return true
+	}
+	return false
 }
 
 func TestC14(t *testing.T) {
@@ -40,7 +64,7 @@ func TestC14(t *testing.T) {
 	for i := 0; i < n; i++ {
 		R := rs[i%3]
 		maxs := []int{0, R, 2 * R, 8 * R}
-		sp := spec{Kind: "mix", Proto: []string{"pair", "bus"}[rnd.Intn(2)], RMs: R, MaxMs: maxs[(i/3)%4], Async: rnd.Intn(2) == 0,
+		sp := spec{Kind: "mix", Proto: mixProtos[rnd.Intn(len(mixProtos))], RMs: R, MaxMs: maxs[(i/3)%4], Async: rnd.Intn(2) == 0,
 			End: ends[(i/12)%len(ends)], Yield: rnd.Intn(2) == 0}
 		l := 4 + rnd.Intn(8)
 		for j := 0; j < l; j++ {
@@ -65,13 +89,12 @@ func TestC14(t *testing.T) {
 	// flakypeer (flaky_test.go): real transports, the harness holds the peer's address and decides per
 	// connection how its establishment fails after the transport connected; Script letters see there.
 	ftrs := []string{"tcp", "ipc", "tls+tcp", "ws", "wss"}
-	for i := 0; i < r.Pick(40, 1500); i++ {
-		R := []int{3, 10, 20}[(i/5)%3]
-		sp := spec{Kind: "flakypeer", Tr: ftrs[i%5], Proto: []string{"pair", "bus", "push", "req"}[rnd.Intn(4)], RMs: R, MaxMs: []int{0, R, 4 * R}[(i/15)%3],
-			Async: rnd.Intn(3) != 0, End: ends[i%len(ends)], Yield: rnd.Intn(2) == 0}
-		l := 2 + rnd.Intn(4)
+	flakySpec := func(tr, proto string, R, max int, end, alphabet string, lmin, lvar int) spec {
+		sp := spec{Kind: "flakypeer", Tr: tr, Proto: proto, RMs: R, MaxMs: max,
+			Async: rnd.Intn(3) != 0, End: end, Yield: rnd.Intn(2) == 0}
+		l := lmin + rnd.Intn(lvar)
 		for j := 0; j < l; j++ {
-			sp.Script += string("CEEPBWG"[rnd.Intn(7)])
+			sp.Script += string(alphabet[rnd.Intn(len(alphabet))])
 		}
 		if !sp.Async {
 			sp.Script = "G" + sp.Script // a synchronous dialer retries only after its first success
@@ -84,8 +107,44 @@ func TestC14(t *testing.T) {
 		default:
 			sp.Script += "G"
 		}
+		return sp
+	}
+	for i := 0; i < r.Pick(40, 1500); i++ {
+		R := []int{3, 10, 20}[(i/5)%3]
+		sp := flakySpec(ftrs[i%5], []string{"pair", "bus", "push", "req"}[rnd.Intn(4)], R, []int{0, R, 4 * R}[(i/15)%3], ends[i%len(ends)], "CEEPBWG", 2, 4)
 		cases = append(cases, mon.CaseSpec{Name: "flakypeer/" + sp.Tr + "/" + sp.End, Spec: sp})
 	}
+	// protoloss: the same relay, every protocol (cooked and raw) in the dialler's role in turn, scripts
+	// made mostly of connections that reach the real peer, carry traffic in the directions the pattern
+	// has and are then lost: whichever way the protocol learns of the loss, the dialer has to hear of it.
+	var ploss []mon.CaseSpec
+	for i := 0; i < r.Pick(len(hx.AllProtos), 20*len(hx.AllProtos)); i++ {
+		np := len(hx.AllProtos)
+		R := []int{3, 10, 20}[(i/np+i)%3]
+		sp := flakySpec(ftrs[(i+2*(i/np))%5], hx.AllProtos[i%np], R, []int{0, R, 4 * R}[(i/np+i/3)%3], ends[(i/np+i)%len(ends)], "GGGGCEW", 2, 3)
+		ploss = append(ploss, mon.CaseSpec{Name: "protoloss/" + sp.Proto + "/" + sp.Tr + "/" + sp.End, Spec: sp})
+	}
+	// aged (aged_test.go): dialers over every stream transport at once that have to connect again when
+	// they are AgeMs old.  These cases are long and the capfine cases (also long) all have odd indices:
+	// the aged ones are put at even indices (cases are dealt to the child processes by index), with
+	// protoloss cases in between.
+	ages := []int{6000, 8000, 11000, 14000}
+	if r.Thorough() {
+		ages = []int{6000, 8000, 11000, 14000, 21000, 32000, 45000, 62000, 91000, 125000}
+	}
+	for i := 0; i < r.Pick(4, 30); i++ {
+		if len(cases)%2 == 1 && len(ploss) > 0 {
+			cases = append(cases, ploss[0])
+			ploss = ploss[1:]
+		}
+		R := []int{10, 20, 40}[i%3]
+		if ages[i%len(ages)] >= 30000 {
+			R *= 5 // (keeps the number of attempts made while a peer is absent in the hundreds)
+		}
+		sp := spec{Kind: "aged", Proto: "any", RMs: R, MaxMs: []int{4 * R, 0, R}[(i/3)%3], Async: true, AgeMs: ages[i%len(ages)] + rnd.Intn(1000), Yield: rnd.Intn(4) == 0}
+		cases = append(cases, mon.CaseSpec{Name: "aged", Spec: sp})
+	}
+	cases = append(cases, ploss...)
 	r.Run(cases, func(c *mon.Case) {
 		sp := c.Spec.(spec)
 		if sp.Kind == "flakypeer" {
@@ -95,6 +154,14 @@ func TestC14(t *testing.T) {
 			}
 			runFlaky(c, sp)
 			c.Sig("flakypeer|%s|%s|%d|%d|%v|%s|%s", sp.Tr, sp.Proto, sp.RMs, sp.MaxMs, sp.Async, sp.Script, sp.End)
+			return
+		}
+		if sp.Kind == "aged" {
+			if sp.Yield {
+				hx.SetYields(c.Rand.Int63(), &hx.YieldCfg{ProbGosched: 0.25, ProbSleep: 0.15, MaxSleep: 300 * time.Microsecond})
+				defer hx.SetYields(0, nil)
+			}
+			runAged(c, sp)
 			return
 		}
 		if sp.Kind == "realrestart" {
@@ -140,6 +207,9 @@ func newRig(c *mon.Case, sp spec) *rig {
 		}
 	}
 	g.sock = hx.MustSock(c, sp.Proto)
+	if sp.Proto == "sub" {
+		g.sock.SetOption(mangos.OptionSubscribe, []byte{})
+	}
 	name := hx.Uniq("c14")
 	g.vd = vt.D(name)
 	c.Cleanup(func() { vt.Forget(name) })
@@ -384,43 +454,52 @@ func countS(s string) int {
 	return n
 }
 
-// exchange: one message each way over the fresh connection.
+// exchange: one message in every direction the pattern has over the fresh connection.
 func exchange(c *mon.Case, g *rig, p *vt.Pipe) bool {
 	msg := []byte("m-" + hx.Uniq("x"))
-	before := p.SentCount()
-	k := mon.Go("Send", func() (interface{}, error) { return nil, g.sock.Send(msg) })
-	if !c.AwaitOrViolate("dial/traffic-not-resumed:send", "Send on the socket completing on the new connection", k.Done, mon.AwaitOpts{MaxTimer: g.R}) {
-		return false
-	}
-	if _, e, _ := k.Result(); e != nil {
-		c.Violate("dial/traffic-not-resumed:send-error", "Send after reconnect returned %v", e)
-		return false
-	}
-	if !c.AwaitOrViolate("dial/traffic-not-resumed:not-on-new-connection", "the message appearing on the new connection", func() bool {
-		for _, s := range p.SentFrom(before) {
-			if bytes.HasSuffix(s.Wire(), msg) {
-				return true
-			}
+	if !recvOnly(g.proto) {
+		before := p.SentCount()
+		k := mon.Go("Send", func() (interface{}, error) { return nil, g.sock.Send(msg) })
+		if !c.AwaitOrViolate("dial/traffic-not-resumed:send", "Send on the socket completing on the new connection", k.Done, mon.AwaitOpts{MaxTimer: g.R}) {
+			return false
 		}
-		return false
-	}, mon.AwaitOpts{MaxTimer: g.R}) {
-		return false
+		if _, e, _ := k.Result(); e != nil {
+			c.Violate("dial/traffic-not-resumed:send-error", "Send after reconnect returned %v", e)
+			return false
+		}
+		if !c.AwaitOrViolate("dial/traffic-not-resumed:not-on-new-connection", "the message appearing on the new connection", func() bool {
+			for _, s := range p.SentFrom(before) {
+				if bytes.HasSuffix(s.Wire(), msg) {
+					return true
+				}
+			}
+			return false
+		}, mon.AwaitOpts{MaxTimer: g.R}) {
+			return false
+		}
 	}
-	if g.proto == "pair1" {
-		p.Inject(append([]byte{0, 0, 0, 0}, msg...)) // PAIR1 wire header: hop count
-	} else {
-		p.Inject(msg)
-	}
-	var got []byte
-	r := mon.Go("Recv", func() (interface{}, error) { b, e := g.sock.Recv(); got = b; return nil, e })
-	if !c.AwaitOrViolate("dial/traffic-not-resumed:recv", "Recv of a message arriving on the new connection", r.Done, mon.AwaitOpts{MaxTimer: g.R}) {
-		return false
-	}
-	if _, e, _ := r.Result(); e != nil || !bytes.Equal(got, msg) {
-		c.Violate("dial/traffic-not-resumed:recv-error", "Recv after reconnect returned %q, %v", got, e)
-		return false
+	if !sendOnly(g.proto) {
+		if g.proto == "pair1" {
+			p.Inject(append([]byte{0, 0, 0, 0}, msg...)) // PAIR1 wire header: hop count
+		} else {
+			p.Inject(msg)
+		}
+		var got []byte
+		r := mon.Go("Recv", func() (interface{}, error) { b, e := g.sock.Recv(); got = b; return nil, e })
+		if !c.AwaitOrViolate("dial/traffic-not-resumed:recv", "Recv of a message arriving on the new connection", r.Done, mon.AwaitOpts{MaxTimer: g.R}) {
+			return false
+		}
+		if _, e, _ := r.Result(); e != nil || !bytes.Equal(got, msg) {
+			c.Violate("dial/traffic-not-resumed:recv-error", "Recv after reconnect returned %q, %v", got, e)
+			return false
+		}
 	}
 	c.Count("exchanges_after_reconnect", 1)
+	if recvOnly(g.proto) {
+		c.Count("exchanges_after_reconnect_receive_only_socket", 1)
+	} else if sendOnly(g.proto) {
+		c.Count("exchanges_after_reconnect_send_only_socket", 1)
+	}
 	return true
 }
 
